@@ -174,6 +174,18 @@ impl TokenBinder {
                 let args: SVec<Val> = svec![&env, a(self, "new").into_val(&env)];
                 self.call(act, "transfer_ownership", args)
             }
+            "Clawback" => {
+                let args: SVec<Val> = svec![&env, a(self, "from").into_val(&env), self.amt(act).into_val(&env)];
+                self.call(act, "clawback", args)
+            }
+            "SetAuthorized" => {
+                let args: SVec<Val> = svec![&env, a(self, "id").into_val(&env), act["flag"].as_bool().unwrap().into_val(&env)];
+                self.call(act, "set_authorized", args)
+            }
+            "Authorized" => {
+                let args: SVec<Val> = svec![&env, a(self, "id").into_val(&env)];
+                self.call(act, "authorized", args)
+            }
             other => panic!("Token: unknown action {other}"),
         };
         self.finish(r)
